@@ -124,7 +124,7 @@ var controls = []control{
 	{"static-recursion-in-runtime", []string{"C17"}, false, "seq/seq.go", "func Delay[V any](f lazy[V]) Seq[V] {\n", "func Delay[V any](f lazy[V]) Seq[V] {\n\tif f == nil {\n\t\treturn Delay[V](f)\n\t}\n", "SEQ.STACK.REC"},
 	// --- controls for the rules that came out of the mutation sweep
 	{"yield-type-check-swapped", []string{"C11"}, false, "rewriter/yield_rewrite.go", "types.AssignableTo(v, t)", "types.AssignableTo(t, v)", "RW.YIELDTYPE"},
-	{"field-comments-not-collected", []string{"C13"}, false, "rewriter/rewrite.go", "\t\tcase *ast.Field:\n\t\t\tadd(n.Doc, n.Comment)\n", "", "RW.COMMENTS"},
+	{"spec-doc-comments-not-collected", []string{"C13"}, false, "rewriter/rewrite.go", "\t\tcase *ast.ValueSpec:\n\t\t\tadd(n.Doc, n.Comment)\n", "", "RW.COMMENTS"},
 	{"comments-merged-in-reverse-order", []string{"C13"}, false, "rewriter/rewrite.go", "return zs[i].Pos() < zs[j].Pos()", "return zs[i].Pos() > zs[j].Pos()", "RW.COMMENTS"},
 	{"trivial-switch-tagged-delay", []string{"C11"}, false, "rewriter/yield_rewrite.go", "\t\tchildren = r.combineIfNecessary(children) // for init containing yield\n\t\tchildren.push(switchStmt, kindTrival)", "\t\tchildren = r.combineIfNecessary(children) // for init containing yield\n\t\tchildren.push(switchStmt, kindDelay)", "RW.BLOCKSTATE"},
 	{"incdec-unknown-to-break-scan", []string{"C11"}, false, "rewriter/return.go", "*ast.IncDecStmt, *ast.AssignStmt, *ast.GoStmt, *ast.DeferStmt,\n\t\t*ast.RangeStmt /*range empty*/ :\n\t\t// no chance", "*ast.AssignStmt, *ast.GoStmt, *ast.DeferStmt,\n\t\t*ast.RangeStmt /*range empty*/ :\n\t\t// no chance", "RW.EXH"},
